@@ -26,7 +26,7 @@ from rv import gen, oracle
 
 PLAN = {
     "quick": {"cases": 330, "hashseeds": 3, "shards": 5, "timeout": 900, "min_nontrivial": 150},
-    "thorough": {"cases": 2400, "hashseeds": 8, "shards": 2, "timeout": 4500, "min_nontrivial": 1200},
+    "thorough": {"cases": 1800, "hashseeds": 8, "shards": 2, "timeout": 4500, "min_nontrivial": 900},
 }
 if os.environ.get("RV_C09_CASES"):        # development aid: run only a prefix of the same case stream
     for _t in PLAN.values():
